@@ -76,19 +76,6 @@ verus! {
 //@end
 
 
-spec fn get_stuff_inner_post<F1: Fn(&Member) -> TokenStream, F2: Fn() -> &'static Member>(
-    member: Option<Member>, action: Option<TokenStream>, obj: Toks, field_path: F1, or: F2, ctx: ImplContext, r: Toks) -> bool
-{
-    match (member, action) {
-        (Some(m), Some(a)) => exists|mm: Member, t: TokenStream| mm.toks() == bind_toks(m, ctx.impl_type is Variant) && #[trigger] field_path.ensures((&mm,), t)
-            && r == spec_action(a@, t@, ctx),
-        (Some(m), None) => exists|mm: Member, t: TokenStream| mm.toks() == bind_toks(m, ctx.impl_type is Variant) && #[trigger] field_path.ensures((&mm,), t)
-            && r =~= obj + t@,
-        (None, Some(a)) => exists|o: &Member, t: TokenStream| or.ensures((), o) && #[trigger] field_path.ensures((o,), t) && r == spec_action(a@, t@, ctx),
-        (None, None) => exists|o: &Member, t: TokenStream| or.ensures((), o) && #[trigger] field_path.ensures((o,), t) && r =~= obj + t@,
-    }
-}
-
 //@fn expand.rs ApplicableAttr::get_stuff
 //@props C01,C02,C10,C16
 //@spec
@@ -111,8 +98,6 @@ spec fn get_stuff_inner_post<F1: Fn(&Member) -> TokenStream, F2: Fn() -> &'stati
 
 // ---------------------------------------------------------------- render_struct_line (C01 C03 C07 C10 C16 C17)
 // data invariant of a Field built by Field::from_syn: a positional member carries its own declaration index
-spec fn is_member(r: &Member, m: &Member) -> bool { *r == *m }
-
 spec fn field_wf(f: &Field) -> bool {
     f.member matches Member::Unnamed(i) ==> i.index as int == f.idx as int
 }
